@@ -77,6 +77,23 @@ def run(ctx):
         for c in calls:
             ok, why = conj_discipline(a, f, c)
             ctx.check("C10.R2", f"{f.qualname}: every element's verdict is and-combined", ok, f.where(c), f"{f.qualname}: {why}", "the verdict of one element can be lost (overwritten or ignored): a container with a bad element validates True")
+        # no accepting path bypasses the elements: a returned value that can be True consults _validate (or the
+        # container is known to be empty on that path)
+        dn = f.pos_params[0]
+        for s in summaries(cfg_of(f), max_paths=2000):
+            if s.kind != "return" or s.expr is None:
+                continue
+            if isinstance(s.expr, ast.Constant) and not s.expr.value:
+                continue
+            if "_validate(" in s.text:
+                continue
+            if any(x in s.facts for x in (f"not {dn}", f"len({dn}) == 0", f"not len({dn})")):
+                continue
+            verdict_names_ = {t.id for n in walk_local(f.node) if isinstance(n, ast.Assign) and any(isinstance(c, ast.Call) and isinstance(c.func, ast.Name) and c.func.id == "_validate" for c in ast.walk(n.value)) for t in n.targets if isinstance(t, ast.Name)}
+            if names_in(s.expr) & verdict_names_ or any(isinstance(x, ast.Name) and x.id not in (dn,) and x.id in {t.id for n in walk_local(f.node) if isinstance(n, (ast.Assign, ast.AugAssign)) for t in (n.targets if isinstance(n, ast.Assign) else [n.target]) if isinstance(t, ast.Name)} for x in ast.walk(s.expr)):
+                continue  # a flag / collected verdicts: covered by the and-combination discipline above
+            ctx.violation("C10.R2", f"{f.qualname}: no accepting path bypasses the elements", f.where(s.node), f"{f.qualname}: returns `{s.text[:80]}` under {sorted(s.facts)[:4]}", "a container is accepted without its elements being validated: data the writers reject (or encode as something else) validates True")
+        ctx.holds("C10.R2", f"{f.qualname}: accepting paths consult the element verdicts (checked per path)", f.where())
     vm = p.func("_validation_py:validate_many")
     cfg = cfg_of(vm)
     rets = [n for n in walk_local(vm.node) if isinstance(n, ast.Return)]
